@@ -70,6 +70,29 @@ FIRST = {  # outcome of the first run, before any strengthening, and what was st
  "C03/m9": ("missed", "apply stream: a prelude on a scratch copy of the OCI spec (the same edit object applied there, then overwritten by foreign edits)"),
  "C04/m9": ("missed", "cache stream: all Spec files removed, refresh, the same request into the OCI spec that was injected into last"),
  "C04/m10": ("missed", "default-cache child: the nil-spec injection is the first thing the process does with the package"),
+ # round 6 (m11, m12)
+ "C01/m11": ("missed", "cache stream: an auto-refresh cache whose directories are removed altogether, which it notices, and come back with the same content (`rmdirs`)"),
+ "C02/m11": ("missed", "cache stream, every injection: each listed device injected on its own in between and compared with a cache created just now, then the first request once more"),
+ "C03/m12": ("missed", "apply stream: explicit uid/gid 0 (and 1, 2^32-1) on device nodes in containers of a non-zero user; file modes with special bits"),
+ "C04/m12": ("missed", "cache stream: requests whose only miss is the empty or a blank name, first / last; odd one-byte names among random requests"),
+ "C05/m12": ("missed", "validate stream: admission through a cache that loaded another document (well-formed / unparsable) from the same path before - replaced in place, same size, same modification time"),
+ "C06/m12": ("missed", "version stream: the Spec parsed from its own JSON and YAML text requires the same version as the Spec itself"),
+ "C08/m12": ("missed: the call never returns and the stream waited for its 50-minute limit", "harness: every case runs under a deadline on a copy; a call that does not return is the outcome `hang`, reported with the case"),
+ "C09/m11": ("missed", "codec stream: the name has a past - a longer Spec was written under it before and the file has a second hard link; the link must keep the earlier content"),
+ "C10/m12": ("missed", "fswrite stream: the previous file has a second hard link outside the directory"),
+ "C11/m11": ("missed", "watch stream: Specs installed as symbolic links, links re-pointed by rename (fixed histories)"),
+ "C11/m12": ("missed (written against the tree before fix 86b9bb3; rebased by hand)", "watch stream op `overflow`: the kernel's event queue overflows; afterwards the cache must go on following the directory"),
+ "C12/m12": ("reported without a failing input (F9: RemoveSpec writes the index)", "names stream: a Spec that shadows a lower-priority definition is removed again - at every moment the device resolves to one of the two (C12 reads this clause)"),
+ "C13/m12": ("missed", "cache stream: layouts scanned with the builtin schema installed as Spec validator, a file only the schema refuses scanned first"),
+ "C14/m11": ("missed", "cache stream, every injection on a manually refreshed cache: a Spec file appears on disk, a failing request and a request for the new device follow - the listings must not move (C14 reads these clauses of the cache stream)"),
+ "C14/m12": ("missed", "same: the caller re-uses one OCI spec object, reset to the same content"),
+ "C15/m12": ("missed", "annot stream: requested names that contain the list separator (every piece qualified), padded names, empty and blank list elements at every position"),
+ "C16/m11": ("reported without a failing input (F6 writeCalls fact)", "names stream: bystander files in the very directory written to - the same stem with the other Spec extension, writer leftovers, backups, hidden files: now with a failing input"),
+ "C16/m12": ("missed", "same bystander files (`spec.*.tmp`)"),
+ "C18/m12": ("missed (a schedule)", "schema stream: eight goroutines validate in-memory Specs of different sizes at the same time"),
+ "C19/m11": ("missed", "cli stream: OCI specs with members the tool's runtime-spec version does not know, a vendor extension, a repeated member"),
+ "C20/m11": ("missed (written against the tree before fix 86b9bb3; rebased by hand)", "reconf stream: history steps that make the watcher's event queue overflow, before reconfigurations"),
+ "C20/m12": ("missed", "reconf stream: after every history a Spec file of a final directory is rewritten in place"),
 }
 rows = []
 for d in sorted(glob.glob("/verif/seeded/C*/m*")):
